@@ -743,6 +743,32 @@ func wireDecode(e *Env, add func(string), prop string) {
 						try(es, isReq, c, "corrupt", em)
 					}
 				}
+				// hostile length prefixes: a multi-byte varint spliced in at every position (lengths near
+				// 2^64, 2^63, 2^32, just beyond the frame; overlong and unterminated encodings)
+				hostile := [][]byte{
+					uv(^uint64(0)), uv(^uint64(0) - 9), uv(^uint64(0) - uint64(len(frame)) + 4), uv(1 << 63), uv(1<<63 - 1), uv(1 << 32), uv(1<<31 - 1),
+					uv(uint64(len(frame))), uv(uint64(len(frame)) + 1),
+					{0xff, 0xff, 0xff, 0xff, 0xff, 0xff, 0xff, 0xff, 0xff, 0x7f},
+					{0x80, 0x80, 0x80, 0x80, 0x80, 0x80, 0x80, 0x80, 0x80, 0x80, 0x01},
+					{0xff, 0xff, 0xff, 0xff, 0xff, 0xff, 0xff, 0xff, 0xff, 0xff, 0xff, 0xff},
+				}
+				step := 1
+				if len(frame) > 64 && !e.thorough() {
+					step = 3
+				}
+				for pos := 0; pos < len(frame); pos += step {
+					for k, hv := range hostile {
+						c := make([]byte, 0, len(frame)+len(hv)+64)
+						c = append(c, frame[:pos]...)
+						c = append(c, hv...)
+						c = append(c, frame[pos+1:]...)
+						em := emitted < emitBudget+800 && ((pos+k)%4 == 0 || pos < 12)
+						if em {
+							emitted++
+						}
+						try(es, isReq, c, "hostile-length", em)
+					}
+				}
 			}
 		}
 	}
